@@ -57,9 +57,10 @@ ValSeqs == UNION {Perms(S) : S \in {T \in RuleSets : T # {} /\ Cardinality(T) <=
 \* ---- sanitizers: every order of every subset of {trim, lowercase | uppercase, one custom}
 San(k, fn) == [k |-> k, fn |-> fn, p |-> <<>>]
 \* "c11": the idempotent custom function in every position among the built-ins (C11's precondition is decided by Builtin)
-Customs == IF Tier \in {"quick", "c07"} THEN {San("with", "bang")}
+\* (quick: `tag_a` appends an upper-case letter, so it does not commute with trim NOR with a case mapping)
+Customs == IF Tier \in {"quick", "c07"} THEN {San("with", "tag_a")}
            ELSE IF Tier = "c11" THEN {San("with", "take2")}
-           ELSE {San("with", "bang"), San("with", "rev"), San("with", "take2")}
+           ELSE {San("with", "bang"), San("with", "tag_a"), San("with", "rev"), San("with", "take2")}
 SanSets == {a \cup b \cup c : a \in AtMostOne({San("trim", "")}),
                               b \in AtMostOne({San("lowercase", ""), San("uppercase", "")}),
                               c \in AtMostOne(Customs)}
